@@ -138,9 +138,49 @@ def filter_foreign():
     return len(replays_C16.FOREIGN), ([{'key': r['witness_key'], 'detail': r['detail']}] if r['violates'] else [])
 
 
+def urllib_axioms():
+    """The contracts of urllib.parse that C16.scope_round_trip assumes, tried on the real library over reserved,
+    non-ASCII and whitespace-laden strings (a bounded validation of assumptions, nothing more)."""
+    import itertools
+    from urllib.parse import ParseResult, parse_qsl, quote, unquote, urlencode, urlsplit, urlunparse
+    atoms = ['', 'a', 'A b', '/', '//', '?', '#', '&', '=', '%', '%2F', '+', ' ', ';', ':', '@', 'ä', '€', '日本', '\\', '"', "'", '\t',
+             'x/y?z#w', 'a&b=c', '\u00a0', '[', ']', '~', '.', '..']
+    strings = atoms + [a + b for a, b in itertools.product(atoms[:14], atoms[:14])]
+    cases, bad = 0, []
+    for s in strings:
+        cases += 1
+        q0, q1 = quote(s, safe=''), quote(s)
+        if unquote(q0) != s or unquote(q1) != s:
+            bad.append({'key': 'urllib-axiom:unquote-quote', 'detail': f'unquote(quote({s!r})) != s'})
+        if any(c in q0 for c in '/?#') or any(c in q1 for c in '?#') or ('/' not in s and '/' in q1):
+            bad.append({'key': 'urllib-axiom:quote-charset', 'detail': f'quote({s!r}) -> {q0!r} / {q1!r}'})
+    names = ('fac', 'bldng', 'flr', 'poc', 'rm', 'bed')
+    for combo in itertools.product(atoms[:20], repeat=2):
+        for k in range(5):
+            cases += 1
+            d = {names[k]: combo[0], names[k + 1]: combo[1]}
+            d = {a: b for a, b in d.items() if b}
+            q = urlencode(d)
+            if '#' in q or dict(parse_qsl(q)) != d:
+                bad.append({'key': 'urllib-axiom:urlencode-parse_qsl', 'detail': f'{d!r} -> {q!r} -> {dict(parse_qsl(q))!r}'})
+            if not combo[0] or '/' in combo[0]:
+                continue          # empty root / root with '/': path '//...' is read as an authority (excluded by the contract's precondition)
+            path = '/' + quote(combo[0]) + '/' + quote(combo[1], safe='')
+            u = urlunparse(ParseResult(scheme='sdc.ctxt.loc', netloc=None, path=path, params=None, query=q, fragment=None))
+            sp = urlsplit(u)
+            if (sp.scheme, sp.path, sp.query) != ('sdc.ctxt.loc', path, q):
+                bad.append({'key': 'urllib-axiom:urlsplit-urlunparse', 'detail': f'{path!r} ? {q!r} -> {u!r} -> {tuple(sp)[:4]!r}'})
+            if '/' not in combo[0] and path.split('/') != ['', quote(combo[0]), quote(combo[1], safe='')]:
+                bad.append({'key': 'urllib-axiom:split', 'detail': f'{path!r}.split("/") = {path.split("/")!r}'})
+    if 'sdc.ctxt.loc'.lower() != 'sdc.ctxt.loc':
+        bad.append({'key': 'urllib-axiom:lower', 'detail': 'lower of the scheme constant'})
+    return cases, bad[:5]
+
+
 if __name__ == '__main__':
     c = Collector()
     c.run('C16.roundtrip', 'B', roundtrip, bound='all 64 present/absent combinations x seeded values over 28 reserved / non-ASCII atoms; containment laws')
+    c.run('C16.urllib_axioms', 'B', urllib_axioms, bound='the assumed urllib.parse contracts of C16.scope_round_trip on 227 strings / 2000 query and path combinations over reserved and non-ASCII characters')
     c.run('C16.parse_is_stateless', 'B', parse_is_stateless, bound='3 rounds of parse / modify / parse / filter on one scope string')
     c.run('C16.from_scope_string_raises', 'B', raises_only, bound='16 fixed + seeded random malformed scope strings: only UrlSchemeError / ValueError')
     c.run('C16.published_chain', 'B', published_chain, bound='63 non-empty combinations x seeded values through LocationContextState -> scopesfactory')
